@@ -308,3 +308,50 @@ def chain_case(rng, k):
                                "_ = norm(%s)" % b, "_ = f1(%s, %s)" % (a, b), "baz()", "_ = oldPair(norm(%s), %s)" % (a, b)]))
     src = "package p\n\nfunc h() {\n\t" + "\n\t".join(stm) + "\n}\n"
     return ("chain#%d" % k, patch.encode(), src.encode(), {"family": "chain%d" % (k % len(CHAINS))})
+
+
+# ---------------------------------------------------------------- declaration-level patterns (with optional import edits)
+DECL_FAMILIES = [
+    # (name, meta, patch body lines, instance templates, near-miss templates)
+    ("func-sig", "var f identifier", ["-func f() error {", "+func f(ctx Ctx) error {", "   ...", " }"],
+     ["func %s() error {\n\tstep()\n\treturn nil\n}"], ["func %s() (error, bool) {\n\treturn nil, true\n}", "func %s(a int) error {\n\treturn nil\n}", "func (r R) %s() error {\n\treturn nil\n}"]),
+    ("func-rename", "", ["-func oldName(x int) int {", "+func newName(x int) int {", "   ...", " }"],
+     ["func oldName(x int) int {\n\treturn x\n}"], ["func oldName(x int64) int {\n\treturn 0\n}", "func oldName2(x int) int {\n\treturn x\n}", "func oldName(x, y int) int {\n\treturn x\n}"]),
+    ("method-recv", "var m identifier\nvar t identifier", ["-func (s t) m() {", "+func (s *t) m() {", "   ...", " }"],
+     ["func (s %s) Do() {\n\twork()\n}"], ["func (s *%s) Do() {\n\twork()\n}", "func (q %s) Do() {\n\twork()\n}", "func (s %s) Do() int {\n\treturn 1\n}"]),
+    ("type-struct-field", "", [" type Config struct {", "   ...", "-  Timeout int", "+  Timeout time.Duration", "   ...", " }"],
+     ["type Config struct {\n\tName string\n\tTimeout int\n\tRetries int\n}"], ["type Config struct {\n\tName string\n\tTimeout int64\n}", "type Config2 struct {\n\tTimeout int\n}",
+      "type Config struct {\n\tName    string\n\ttimeout int\n}"]),
+    ("var-value", "var v identifier", ["-var v = legacy()", "+var v = modern()"],
+     ["var %s = legacy()"], ["var %s = legacy(1)", "var %s int = legacy()", "const %s = legacy()", "var %s, other = legacy(), 1"]),
+    ("const-type", "var n identifier\nvar x expression", ["-const n int = x", "+const n int64 = x"],
+     ["const %s int = 10"], ["const %s int32 = 10", "const %s = 10", "var %s int = 10"]),
+    ("iface-method", "", [" type Store interface {", "   ...", "-  Get(k string) string", "+  Get(ctx Ctx, k string) string", "   ...", " }"],
+     ["type Store interface {\n\tPut(k, v string)\n\tGet(k string) string\n}"], ["type Store interface {\n\tGet(k string) (string, error)\n}", "type Store2 interface {\n\tGet(k string) string\n}"]),
+    ("func-results", "var f identifier", ["-func f() (int, error) {", "+func f() (int64, error) {", "   ...", " }"],
+     ["func %s() (int, error) {\n\treturn 0, nil\n}"], ["func %s() (n int, err error) {\n\treturn\n}", "func %s() (int, int, error) {\n\treturn 0, 0, nil\n}"]),
+]
+DECL_IMPORT_EDITS = ["", "", "+import \"example.com/ctx\"\n\n", "-import \"os\"\n+import \"example.com/newos\"\n\n", " import \"os\"\n\n", "+import \"time\"\n+import c \"example.com/ctx\"\n\n"]
+DECL_HEADS = ["package p\n\n", "package p\n\nimport \"os\"\n\n", "package p\n\nimport (\n\t\"bytes\"\n\t\"os\"\n)\n\n", "package p\n\nimport \"bytes\"\n\nimport \"os\"\n\n"]
+DECL_FILL = ["func keepA() { os.Exit(0) }", "var keepB = []int{1, 2, 3}", "type keepC struct {\n\tX, Y int\n}", "func (k keepC) M() int { return k.X }",
+             "const keepD = \"d\"", "func keepE[T any](x T) T { return x }", "var _ = bytes.NewReader"]
+
+
+def decl_case(rng, k):
+    name, meta, lines, insts, misses = DECL_FAMILIES[k % len(DECL_FAMILIES)]
+    imp = DECL_IMPORT_EDITS[(k // len(DECL_FAMILIES)) % len(DECL_IMPORT_EDITS)]
+    patch = "@@\n%s@@\n%s%s\n" % (meta + "\n" if meta else "", imp, "\n".join(lines))
+    head = DECL_HEADS[(k // 3) % len(DECL_HEADS)]
+    decls = []
+    nm = iter(["Alpha", "Beta", "Gamma", "Delta", "Eps", "Zeta", "Eta", "Theta"])
+    def fill(t):
+        return t % next(nm) if "%s" in t else t
+    for _ in range(rng.randint(1, 2)):
+        decls.append(fill(rng.choice(insts)))
+    for _ in range(rng.randint(0, 2)):
+        decls.append(fill(rng.choice(misses)))
+    decls += rng.sample(DECL_FILL, rng.randint(2, 5))
+    rng.shuffle(decls)
+    # declarations of one kind must not repeat verbatim (type Config twice does not matter to the parser)
+    src = head + "\n\n".join(decls) + "\n"
+    return ("decl:%s%s#%d" % (name, "+imports" if imp.strip() else "", k), patch.encode(), src.encode(), {"family": "decl:" + name})
